@@ -1,11 +1,14 @@
 (* C17 — saved curves, functions, conditions and process models load back unchanged.
    The storage back ends (pandas CSV, json, joblib, the OS) are oracles: they are assumed to hand back what they were
-   given; what is modelled and proved is the column map of ProcessModel.save / load and the directory discipline. *)
-From Coq Require Import Reals Lra List.
-From PV Require Import Num PyBase Model.Component Model.Mixture Model.Permeance Model.Solver Model.Process Model.Persist
-  Lemmas.Composition Lemmas.Process Lemmas.Persist.
+   given; what is modelled and proved are the column maps of ProcessModel.save / load and DiffusionCurve.save / from_frame
+   (incl. the unit and composition conversions on load and the re-construction through the DiffusionCurve constructor),
+   the key maps of the two JSON forms, and the directory discipline. *)
+From Coq Require Import Reals Lra List Bool.
+From PV Require Import Num PyBase Model.Component Model.Mixture Model.Permeance Model.Solver Model.Process Model.Curve
+  Model.Persist Model.PersistCurve Lemmas.Composition Lemmas.Permeance Lemmas.Process Lemmas.Persist Lemmas.PersistCurve.
 Import ListNotations.
 Local Open Scope R_scope.
+Local Open Scope bool_scope.
 
 (* every line written for a reported row loads back as that row (time, mass, temperature, composition, fluxes,
    permeances and their units, heats, incl. an absent condensation heat) *)
@@ -27,5 +30,67 @@ Theorem C17_fresh_directory (fs : FS) name :
   (exists fs', generate_process_path fs name = Ok (fs', name) /\ ~ In name fs /\ forall d, In d fs -> In d fs').
 Proof. exact (generate_path_fresh fs name). Qed.
 
+
+(* ---- diffusion curves: DiffusionCurve.save -> DiffusionCurveSet.load / from_frame ---- *)
+(* a constructed curve (valid compositions in either basis, permeances in kg units as the constructor leaves them, at least
+   one point, equal series lengths) is written as one line per point and loads back with the same temperature, permeate
+   condition, fluxes, permeances and units, its feed compositions converted to mass fractions; the partial-pressure
+   function is never consulted *)
+Theorem C17_curve_roundtrip (PP : PPfun ROps) (m : Mixture ROps) id mem mix com (c : Curve ROps) xw :
+  cv_xs c <> [] -> length (cv_J c) = length (cv_xs c) -> length (cv_P c) = length (cv_xs c) ->
+  Forall (fun x : Composition ROps => 0 <= cp x <= 1) (cv_xs c) -> Forall wf_pair (cv_P c) ->
+  mapM (fun x => to_weight ROps x m) (cv_xs c) = Ok xw ->
+  exists table, save_curve ROps id mem mix com c = Ok table /\ length table = length (cv_xs c) /\
+    load_curve ROps PP m table =
+      Ok {| cv_T := cv_T c; cv_xs := xw; cv_J := cv_J c; cv_Tp := cv_Tp c; cv_pp := cv_pp c; cv_P := cv_P c |}.
+Proof. exact (curve_roundtrip PP m id mem mix com c xw). Qed.
+
+(* a re-loaded curve (mass fractions) is a fixed point of save/load *)
+Theorem C17_curve_roundtrip_weight (PP : PPfun ROps) (m : Mixture ROps) id mem mix com (c : Curve ROps) :
+  cv_xs c <> [] -> length (cv_J c) = length (cv_xs c) -> length (cv_P c) = length (cv_xs c) ->
+  Forall (fun x : Composition ROps => 0 <= cp x <= 1 /\ ctype x = Weight) (cv_xs c) -> Forall wf_pair (cv_P c) ->
+  exists table, save_curve ROps id mem mix com c = Ok table /\ load_curve ROps PP m table = Ok c.
+Proof. exact (curve_roundtrip_weight PP m id mem mix com c). Qed.
+
+(* a data file with holes in the flux columns AND in the permeance/unit columns is rejected *)
+Theorem C17_curve_needs_data (PP : PPfun ROps) (m : Mixture ROps) row0 rest :
+  all_present ROps 8 (row0 :: rest) && all_present ROps 9 (row0 :: rest) = false ->
+  all_present ROps 10 (row0 :: rest) && all_present ROps 11 (row0 :: rest) && all_present ROps 12 (row0 :: rest) = false ->
+  load_curve ROps PP m (row0 :: rest) = Err ValueError.
+Proof. exact (load_curve_needs_data PP m row0 rest). Qed.
+
+(* the hypotheses of the curve round trip are satisfiable: a two-point mole-fraction curve *)
+Example C17_curve_roundtrip_nonvacuous :
+  let c := Build_Curve ROps 333 [RC (1/4) Weight; RC (3/4) Weight] [(1, 2); (3, 4)] (Some 200) None
+             [(RP 1 KG, RP 2 KG); (RP 3 KG, RP 4 KG)] in
+  cv_xs c <> [] /\ length (cv_J c) = length (cv_xs c) /\ length (cv_P c) = length (cv_xs c) /\
+  Forall (fun x : Composition ROps => 0 <= cp x <= 1 /\ ctype x = Weight) (cv_xs c) /\ Forall wf_pair (cv_P c).
+Proof.
+  cbn. repeat split; try discriminate; try reflexivity;
+  repeat (constructor; try (cbn; repeat split; try reflexivity; lra)).
+Qed.
+
+(* ---- JSON forms ---- *)
+Theorem C17_function_json_roundtrip (f : PervFn ROps) : pf_from_json ROps (pf_to_json ROps f) = Ok f.
+Proof. exact (pf_json_roundtrip f). Qed.
+
+(* everything but the temperature programme, which the format does not store *)
+Theorem C17_conditions_json_roundtrip (c : Conditions ROps) : 0 <= cp (cd_x0 c) <= 1 ->
+  cond_from_json ROps (cond_to_json ROps c) =
+  Ok {| cd_A := cd_A c; cd_T0 := cd_T0 c; cd_m0 := cd_m0 c; cd_x0 := cd_x0 c; cd_Tp := cd_Tp c; cd_pp := cd_pp c;
+        cd_prog := None |}.
+Proof. exact (cond_json_roundtrip c). Qed.
+
+(* a stored composition value outside [0,1] is rejected on load *)
+Theorem C17_conditions_json_rejects (o : JObj ROps) A T0 m0 xv xt tp pp :
+  jget ROps K_area o = Ok (JNum A) -> jget ROps K_T0 o = Ok (JNum T0) -> jget ROps K_m0 o = Ok (JNum m0) ->
+  jget ROps K_xval o = Ok (JNum xv) -> jget ROps K_xtype o = Ok (JCType xt) ->
+  jget ROps K_Tp o = Ok tp -> jget ROps K_pp o = Ok pp ->
+  ~ (0 <= xv <= 1) -> cond_from_json ROps o = Err ValueError.
+Proof. exact (cond_json_rejects o A T0 m0 xv xt tp pp). Qed.
+
 Print Assumptions C17_process_roundtrip.
 Print Assumptions C17_fresh_directory.
+Print Assumptions C17_curve_roundtrip.
+Print Assumptions C17_function_json_roundtrip.
+Print Assumptions C17_conditions_json_roundtrip.
